@@ -6,5 +6,5 @@ cp -r /repo/EoN "$d/EoN"
 sed -i "$expr" "$d/$file"
 if diff -q /repo/$file "$d/$file" >/dev/null; then echo "MUTANT DID NOT APPLY"; rm -rf "$d"; exit 3; fi
 diff /repo/$file "$d/$file" | head -6
-EON_VERIF_REPO="$d" timeout 1500 /verif/check "$id" --tier "$tier" 2>&1 | grep -E "VIOLATION|key:|what:|tier=|MACHINERY|KNOWN" | head -${5:-12}
+EON_VERIF_REPO="$d" EON_VERIF_EVIDENCE_DIR="$d/evidence" EON_VERIF_REPLAY_DIR="$d/replays" timeout 1500 /verif/check "$id" --tier "$tier" 2>&1 | grep -E "VIOLATION|key:|what:|tier=|MACHINERY|KNOWN" | head -${5:-12}
 rm -rf "$d"
